@@ -602,12 +602,18 @@ class Phonopy:
         elif "first_atoms" in dataset:
             self._dataset = copy.deepcopy(dataset)
         elif "displacements" in dataset:
+            _dataset = self._dataset
             self._dataset = {}
-            self.displacements = dataset["displacements"]
-            if "forces" in dataset:
-                self.forces = dataset["forces"]
-            if "supercell_energies" in dataset:
-                self.supercell_energies = dataset["supercell_energies"]
+            try:
+                self.displacements = dataset["displacements"]
+                if "forces" in dataset:
+                    self.forces = dataset["forces"]
+                if "supercell_energies" in dataset:
+                    self.supercell_energies = dataset["supercell_energies"]
+            except Exception:
+                # A refused dataset leaves the previous one untouched.
+                self._dataset = _dataset
+                raise
         else:
             raise RuntimeError("Data format of dataset is wrong.")
 
